@@ -693,6 +693,13 @@ int vorbis_encode_setup_init(vorbis_info *vi){
                                             again would leak the first
                                             set */
   if(vi->channels<1||vi->channels>255)return(OV_EINVAL);
+  /* a hard minimum above the hard maximum cannot be honoured, and the
+     reservoir arithmetic of the bitrate manager relies on min<=max;
+     OV_ECTL_RATEMANAGE2_SET refuses such a pair, the bitrate arguments
+     of vorbis_encode_setup_managed and the deprecated
+     OV_ECTL_RATEMANAGE_HARD arrive here unchecked */
+  if(hi->managed && hi->bitrate_min>0 && hi->bitrate_max>0 &&
+     hi->bitrate_min>hi->bitrate_max)return(OV_EINVAL);
   if(!hi->impulse_block_p)i0=1;
 
   /* too low/high an ATH floater is nonsensical, but doesn't break anything */
